@@ -419,6 +419,28 @@ impl GenCfg {
         }
     }
 
+    /// "Width sweep": a crossing program whose number of simultaneously live
+    /// values is drawn around the thresholds at which allocators and
+    /// assemblers change behaviour (the JIT's 12 registers, the 255/256-slot
+    /// boundary of 8-bit slot numbers, powers of two), with out-of-line
+    /// calls (libm) made while all of them are live
+    pub fn wide_sweep(rng: &mut Rng) -> Self {
+        let live = match rng.below(8) {
+            0..=3 => 236 + rng.below(45), // 236..=280
+            4 => 116 + rng.below(25),     // around 128
+            5 => 500 + rng.below(30),     // around 512
+            6 => 8 + rng.below(12),       // around the JIT register count
+            _ => 8 + rng.below(600),
+        };
+        let mut c = GenCfg::new(4 * live);
+        c.topo = Topo::Crossing;
+        c.profile = Profile::Libm;
+        c.consts = Consts::Tame;
+        c.const_p = 0.2;
+        c.n_vars = 3 + rng.below(4);
+        c
+    }
+
     /// Draws a configuration from the profile table so that every run covers
     /// every profile
     pub fn random(rng: &mut Rng, max_size: usize) -> Self {
